@@ -11,7 +11,7 @@ import dill
 
 from harness import shim  # noqa: F401
 from syne_tune.backend.trial_status import Trial
-from syne_tune.config_space import choice, finrange, lograndint, ordinal, randint, uniform
+from syne_tune.config_space import choice, finrange, lograndint, loguniform, ordinal, randint, uniform
 
 METRIC, RES, MAXRES = "m", "epoch", "epochs"
 
@@ -26,7 +26,11 @@ SPACES = {
     "s7": [("a", "logint", 1, 4, 0), ("b", "cat", 0, 0, 2)],
     "s8": [("a", "logint", 2, 9, 0), ("b", "int", 0, 1, 0)],
     "sc": [("a", "cont", 0, 0, 1), ("b", "cont", 0, 0, 1)],     # uniform(0, 1) x uniform(0, 1)
+    # continuous domains whose bounds do not survive the encoding round trip exactly ((u - l) + l, exp(log(u)))
+    "sb": [("a", "cont", 0, 0, 2), ("b", "cont", 0, 0, 3)],     # uniform(0.3, 0.9) x loguniform(1e-3, 0.1)
+    "sd": [("a", "cont", 0, 0, 4), ("b", "cont", 0, 0, 2), ("c", "int", 1, 3, 0)],   # loguniform(1e-5, 0.1) x uniform(0.3, 0.9) x randint
 }
+CONT = {1: ("lin", 0.0, 1.0), 2: ("lin", 0.3, 0.9), 3: ("log", 1e-3, 0.1), 4: ("log", 1e-5, 0.1)}
 CAT = ["red", "green", "blue", "pink"]
 ORD = [10, 20, 40, 80, 160]
 
@@ -40,6 +44,8 @@ def domain_values(kind, l, u, n):
         return ORD[:n]
     if kind == "fin":
         return [2 + 3 * i for i in range(n)]          # finrange(2, 2 + 3 (n - 1), n, cast_int=True)
+    if kind == "cont":
+        return [CONT[n][1], CONT[n][2]]               # (initial configurations on the bounds)
     raise ValueError(kind)
 
 
@@ -51,7 +57,8 @@ def make_space(name, with_const=True, maxres: Optional[int] = None):
         elif kind == "logint":
             cs[hp] = lograndint(l, u)
         elif kind == "cont":
-            cs[hp] = uniform(0.0, 1.0)
+            sc_, lo, hi = CONT[n]
+            cs[hp] = uniform(lo, hi) if sc_ == "lin" else loguniform(lo, hi)
         elif kind == "cat":
             cs[hp] = choice(CAT[:n])
         elif kind == "ord":
@@ -92,7 +99,7 @@ def project(name, cs, config) -> dict:
     for (hp, kind, l, u, n) in SPACES[name]:
         v = config.get(hp)
         if kind == "cont":
-            ok = isinstance(v, float) and 0.0 <= v <= 1.0
+            ok = isinstance(v, float) and CONT[n][1] <= v <= CONT[n][2]
             types = types and isinstance(v, float)
             idx.append(0 if ok else -1)
             continue
@@ -124,6 +131,11 @@ def make_scheduler(kind: str, name: str, p2e, seed: int, mode="min"):
         so = {"debug_log": False}
         if kind == "fifo_bayesopt":
             so["num_init_random"] = 3
+        if kind == "fifo_bayesopt_small":
+            # the surrogate model is fitted to a random sub-sample of at most 3 observations (state converter), and the
+            # refit of its parameters is skipped for two of three suggestions (skip predicate with its own counter)
+            so.update(num_init_random=3, max_size_data_for_model=3, opt_skip_period=3, opt_skip_init_length=3)
+            return cs, FIFOScheduler(cs, searcher="bayesopt", search_options=so, **common)
         if kind == "fifo_grid_dup":
             so["allow_duplicates"] = True       # the grid is walked through again and again
             return cs, FIFOScheduler(cs, searcher="grid", search_options=so, **common)
@@ -133,6 +145,15 @@ def make_scheduler(kind: str, name: str, p2e, seed: int, mode="min"):
             names = [hp for (hp, k_, l, u, n) in SPACES[name]]
             vals = [domain_values(k_, l, u, n) for (hp, k_, l, u, n) in SPACES[name]]
             so["restrict_configurations"] = [dict(zip(names, v)) for v in itertools.islice(itertools.product(*vals), 6)]
+            return cs, FIFOScheduler(cs, searcher="random", search_options=so, **common)
+        if kind == "fifo_random_restrict_dup":
+            # duplicates allowed AND suggestions restricted to the first six configurations: the exclusion list then only
+            # holds the configurations of failed trials
+            import itertools
+            names = [hp for (hp, k_, l, u, n) in SPACES[name]]
+            vals = [domain_values(k_, l, u, n) for (hp, k_, l, u, n) in SPACES[name]]
+            so["restrict_configurations"] = [dict(zip(names, v)) for v in itertools.islice(itertools.product(*vals), 6)]
+            so["allow_duplicates"] = True
             return cs, FIFOScheduler(cs, searcher="random", search_options=so, **common)
         if kind == "fifo_random_dup":
             so["allow_duplicates"] = True      # the exclusion list then only holds the configurations of failed trials
@@ -196,8 +217,10 @@ def make_scheduler(kind: str, name: str, p2e, seed: int, mode="min"):
     raise ValueError(kind)
 
 
-NOREPEAT = {"fifo_grid_dup": False, "fifo_random_restrict": False, "hbdeep_hypertune": True, "hbt_pasha": True, "hbt_rush_stopping": True, "hbt_rush_promotion": True, "hbt_cost_promotion": True, "moasha": False,
-            "median": True, "hbdeep_bayesopt": True, "fifo_random_dup": False, "fifo_random": True, "fifo_grid": True, "fifo_bayesopt": True, "hb_random": True, "hb_random_promo": True,
+# searchers that promise not to suggest the configuration of a failed trial again although they may repeat themselves
+NOFAIL = {"fifo_random_dup": True, "fifo_random_restrict_dup": True}
+NOREPEAT = {"fifo_random_restrict_dup": False, "fifo_grid_dup": False, "fifo_random_restrict": False, "hbdeep_hypertune": True, "hbt_pasha": True, "hbt_rush_stopping": True, "hbt_rush_promotion": True, "hbt_cost_promotion": True, "moasha": False,
+            "median": True, "hbdeep_bayesopt": True, "fifo_random_dup": False, "fifo_random": True, "fifo_grid": True, "fifo_bayesopt": True, "fifo_bayesopt_small": True, "hb_random": True, "hb_random_promo": True,
             "hb_bayesopt": True, "hb_hypertune": True, "synchb": True, "dehb": False, "pbt": False, "regevo": False}
 
 
@@ -354,9 +377,11 @@ class Episode:
 
     def trace(self, tid):
         p2e = [[-1] * len(SPACES[self.name])] if self.p2e_idx is None else [list(p) for p in self.p2e_idx]
+        # (a continuous domain is one abstract value for the specification: "inside the bounds")
+        p2e = [[min(i, 0) if SPACES[self.name][c][1] == "cont" else i for c, i in enumerate(p)] for p in p2e]
         # grid search on a log-scaled integer enumerates its own grid, which need not contain every integer
         grid_sub = self.kind == "fifo_grid" and any(k == "logint" for (_, k, _, _, _) in SPACES[self.name])
         cont = any(k == "cont" for (_, k, _, _, _) in SPACES[self.name])
         conf = {"doms": doms_of(self.name), "p2e": p2e, "norepeat": NOREPEAT[self.kind] and not cont,
-                "finite": not grid_sub and not cont}
+                "finite": not grid_sub and not cont, "nofail": (NOFAIL.get(self.kind, False) or NOREPEAT[self.kind]) and not cont}
         return {"id": tid, "conf": conf, "ev": self.ev}
